@@ -38,6 +38,7 @@ def optsOf (j : Json) : Opts :=
     normalizeAmp := fieldBool j "normalize_amp" true
     fixCommonMistakes := fieldBool j "fix_common_mistakes" true
     quoted := fieldBool j "quoted" false
+    lowercase := fieldBool j "lowercase" false
     queryItemFilter := match field j "query_item_filter" with
       | .str "lang" => .lang
       | _ => .none }
@@ -159,7 +160,8 @@ def handleIO (f : String) (j : Json) : IO (Option Json) := do
       | none => jerr (if (lower url).length = 5 then "AttributeError" else "ValueError")
       | some p =>
         let r := normParts E.puny fpOpts (fieldBool j "has_protocol") p
-        exceptJson ((fpParts E sfx r).map fun r' => jlist [splitJson r', out ((urlunsplit r').drop 2)]))
+        exceptJson ((fpParts E sfx r).map fun r' => jlist [splitJson r',
+          out (let s := urlunsplit r'; if startsWith s ['/', '/'] then s.drop 2 else s)]))
   | "fingerprint_hostname" =>
     return some (← withTrie j fun trie =>
       exceptJson ((fingerprintHostname (envOf j trie) (fieldBool j "strip_suffix") (s j "hostname")).map out))
@@ -167,7 +169,7 @@ def handleIO (f : String) (j : Json) : IO (Option Json) := do
     return some (← withTrie j fun trie =>
       let url := s j "url"
       let infr := fieldBool j "infer_redirection" true
-      let u := if infr then infer url else url
+      let u := if infr then infer (lower url) else lower url
       let parsedStr := ensureProtocol (strip (stripControl u)) "http".toList
       let r := getFingerprintedHostname (envOf j trie) (fun _ => optStr (field j "host")) infr
         (fieldBool j "strip_suffix") url
